@@ -405,6 +405,10 @@ func (p *prop) tagsAndOracle(k *kase, impl string, o *obs, out *core.Outcome) {
 		}
 		return
 	}
+	if k.lb == 3 {
+		p.fcgiOracle(k, o, srvTrusted, hTrusted, peer, fail, tag)
+		return
+	}
 	if !o.sent {
 		fail("valid-remote-refused", fmt.Sprintf("remote %q: nothing was sent upstream (%s)", k.remote, impl))
 		return
@@ -602,4 +606,51 @@ func zoneOfRange(r string) string {
 	_, z, _ := strings.Cut(r, "%")
 	z, _, _ = strings.Cut(z, "%")
 	return z
+}
+
+// fcgiOracle: what a FastCGI application is told about the client (php_fastcgi).
+func (p *prop) fcgiOracle(k *kase, o *obs, srvTrusted, hTrusted bool, peer peerInfo, fail func(string, string), tag func(string)) {
+	tag("transport:fastcgi")
+	if o.env == nil {
+		fail("valid-remote-refused", fmt.Sprintf("remote %q: nothing reached the FastCGI application", k.remote))
+		return
+	}
+	// REMOTE_ADDR / REMOTE_PORT are the socket's
+	if host, port, err := net.SplitHostPort(k.remote); err == nil {
+		if o.env["REMOTE_ADDR"] != host || o.env["REMOTE_PORT"] != port {
+			fail("fastcgi-remote-addr-not-the-connection", fmt.Sprintf("REMOTE_ADDR %q REMOTE_PORT %q for the connection %q", o.env["REMOTE_ADDR"], o.env["REMOTE_PORT"], k.remote))
+		}
+	}
+	if srvTrusted || hTrusted {
+		return
+	}
+	proto := "http"
+	if k.tls {
+		proto = "https"
+	}
+	connVals := [3]string{peer.host, proto, k.host}
+	collide := fcgiCollision(k.hdrs)
+	if collide {
+		tag("fastcgi:client-field-with-the-same-cgi-name")
+	}
+	for i, n := range fcgiNames {
+		want := core.Hex(connVals[i])
+		if k.omit[i] {
+			continue // a field pre-set to nil: empty or absent, the model says which
+		}
+		if k.hops == 2 && i == 2 {
+			want = "absent"
+		}
+		for v := range o.envSets[i] {
+			if v != want {
+				class := "fastcgi-forwarded-variable-not-from-connection"
+				if collide {
+					class = "fastcgi-underscore-field-overrides-forwarded-variable"
+				}
+				got, _ := core.UnHex(v)
+				fail(class, fmt.Sprintf("untrusted peer %q: the application can see %s = %q, the connection says %q", k.remote, n, got, connVals[i]))
+				return
+			}
+		}
+	}
 }
